@@ -165,6 +165,18 @@ def is_compact(t) -> bool:
     return False
 
 
+def text_size(t) -> int:
+    """characters in the strings and keys of a value (transport form, compact nodes counted in full)"""
+    n = 0
+    for x in walk(t):
+        if isinstance(x, dict):
+            if "s" in x:
+                n += len(x["s"]) if not isinstance(x["s"], dict) else len(x["s"]["srep"][0]) * x["s"]["srep"][1]
+            elif "o" in x:
+                n += sum(len(k) if not isinstance(k, dict) else len(k["srep"][0]) * k["srep"][1] for k, _ in x["o"])
+    return n
+
+
 def fits64(t) -> bool:
     return all(not (isinstance(x, dict) and "i" in x) or I64_MIN <= x["i"] <= U64_MAX for x in walk(t))
 
@@ -422,6 +434,103 @@ def exhaustive(leaves, keys, max_depth, max_len):
         d = len(levels) + 1
         levels.append([v for v in cur if depth(v) == d])
     return [v for lvl in levels for v in lvl]
+
+
+def directed_hardening():
+    """falsy values, type twins, text that looks like JSON / format directives, length boundaries"""
+    out = []
+    falsy = [{"i": 0}, {"f": (0.0).hex()}, {"f": (-0.0).hex()}, {"s": []}, {"a": []}, {"o": []}, False, None]
+    for x in falsy:
+        out.append(("falsy", x))
+        out.append(("falsy", {"a": [x]}))
+        out.append(("falsy", {"o": [[[], x]]}))
+    out.append(("falsy", {"a": falsy}))
+    out.append(("falsy", {"o": [[cps(f"k{i}"), x] for i, x in enumerate(falsy)]}))
+    # type twins, in both orders (an encoder / decoder that memoises must not conflate them)
+    twins = [{"i": 7}, {"s": cps("7")}, {"f": (7.0).hex()}, True, {"i": 1}, {"f": (1.0).hex()}, {"s": cps("1")}, {"s": cps("true")},
+             {"i": 0}, False, {"f": (0.0).hex()}, {"s": []}, None, {"s": cps("null")}, {"s": cps("0")}]
+    for order in (twins, twins[::-1]):
+        for x in order:
+            out.append(("twin", x))
+        out.append(("twin", {"a": order}))
+        out.append(("twin", {"o": [[cps(f"k{i}"), x] for i, x in enumerate(order)]}))
+        out.append(("twin", {"a": [{"a": [x]} for x in order]}))
+    out.append(("twin", {"o": [[cps("1"), {"i": 1}], [cps("true"), True], [cps("1.0"), {"f": (1.0).hex()}], [cps("True"), {"s": cps("1")}]]}))
+    # text that looks like JSON syntax, numbers, escapes, format directives
+    texts = ["NaN", "Infinity", "-Infinity", "null", "true", "false", "None", "True", "1e400", "-0", "0x10", "1.0", "\\u2028", "\\n",
+             "\\", "\"", "'", "\\\"", "%", "%s %d", "%(x)s", "{}", "{0}", "{x}", "\r\n", "\n", "\r", "\u2028\u2029\u0085", "[]", "{}",
+             "{\"a\":1}", "[1,2]", ",", ":", " ", "\t", "/", "</script>", "\x00", "\x7f", "\ufeff", "utf-8", "indent", "orjson"]
+    for t in texts:
+        out.append(("text", S(t)))
+        out.append(("text-key", {"o": [[cps(t), S(t)]]}))
+    out.append(("text", {"a": [S(t) for t in texts]}))
+    out.append(("text-long", of_py("%s {} \\ \" \n" * 12_500)))  # ~100 kB
+    # string lengths around the sizes vectorised encoders / decoders work in, with an escape at either end
+    for n in (7, 8, 9, 15, 16, 17, 31, 32, 33, 63, 64, 65, 127, 128, 129, 255, 256, 257, 4095, 4096, 4097, 65535, 65536, 65537):
+        for edge in (("\"", "\n", "\u2028", "\U0001F600", "\x1f") if n < 4000 else ("\"", "\U0001F600")):
+            out.append(("length", of_py("a" * (n - 1) + edge)))
+            if n < 4000:
+                out.append(("length", of_py(edge + "b" * (n - 1))))
+        out.append(("length", of_py({"k" * n: ["é" * n]})))
+    return out
+
+
+def render_foreign(t, rng):
+    """one of the many other RFC 8259 texts of a value (transport form, no floats): arbitrary whitespace
+    between tokens, any legal escape for any character"""
+    ws = lambda: rng.choice(["", "", " ", "\n", "\t", "\r\n", "  \n"])  # noqa: E731
+
+    def string(cs):
+        out = ['"']
+        for c in cs:
+            r = rng.random()
+            ch = chr(c)
+            short = {0x22: '\\"', 0x5C: "\\\\", 0x2F: "\\/", 8: "\\b", 12: "\\f", 10: "\\n", 13: "\\r", 9: "\\t"}
+            if c in short and (r < 0.5 or c in (0x22, 0x5C) or c < 32):
+                if r < 0.25 or c == 0x2F and r < 0.4:
+                    out.append(short[c])
+                    continue
+                if c == 0x2F:
+                    out.append(ch)
+                    continue
+            if c < 32 or c in (0x22, 0x5C) or r < 0.3:
+                if c >= 0x10000:
+                    n = c - 0x10000
+                    units = [0xD800 + (n >> 10), 0xDC00 + (n & 0x3FF)]
+                else:
+                    units = [c]
+                for u in units:
+                    h = "%04x" % u
+                    out.append("\\u" + (h.upper() if rng.random() < 0.5 else h))
+            else:
+                out.append(ch)
+        out.append('"')
+        return "".join(out)
+
+    def go(x):
+        if x is None:
+            return "null"
+        if x is True:
+            return "true"
+        if x is False:
+            return "false"
+        if "i" in x:
+            return "-0" if x["i"] == 0 and rng.random() < 0.3 else str(x["i"])
+        if "tok" in x:
+            return x["tok"]
+        if "s" in x:
+            return string(x["s"])
+        if "a" in x:
+            return "[" + ws() + ("," + ws()).join(go(y) + ws() for y in x["a"]) + "]"
+        if "o" in x:
+            return "{" + ws() + ("," + ws()).join(string(k) + ws() + ":" + ws() + go(y) + ws() for k, y in x["o"]) + "}"
+        raise ValueError(x)
+
+    return ws() + go(t) + ws()
+
+
+FLOAT_TOKENS = ["1E2", "1e+2", "1.0e-2", "-0.0", "0.0e0", "1.5", "0.1", "1e22", "1E-7", "123456789012345678.0e-5", "2.5E+10", "-1.25e0",
+                "4.9e-324", "1.7976931348623157E308", "0.30000000000000004", "100.0", "1e0", "0e0", "-0e-0"]
 
 
 DEPTHS = [1023, 1024, 1025, 1100, 1400, 2000]
